@@ -405,7 +405,7 @@ class PlaybackController:
             self.core.tracklist._mark_unplayable(pending)
             current = pending
             count -= 1
-            if not count:
+            if count <= 0:
                 logger.info("No playable track in the list.")
                 break
 
